@@ -88,6 +88,19 @@ impl<S: Spec> DynGen for Seeded<S> {
 struct Jit(rand_jitter::JitterRng<JitClosure>);
 impl DynGen for Jit {
     fn op(&mut self, op: &Op) -> u64 {
+        if let Op::Aux(k) = op {
+            // aux(0): the documented idiom set_rounds(test_timer()?); aux(1|2): timer_stats
+            let mut h = Fnv::new();
+            match k {
+                0 => {
+                    let res = self.0.test_timer();
+                    h.str(&format!("{:?}", res));
+                    if let Ok(rr) = res { self.0.set_rounds(rr); }
+                }
+                _ => h.u64(self.0.timer_stats(*k == 1) as u64),
+            }
+            return h.get();
+        }
         let out = super::c05::apply(&mut self.0, op);
         let mut h = Fnv::new();
         h.str(&out.show());
@@ -111,21 +124,76 @@ unsafe impl Sync for Slot {}
 #[derive(Clone)]
 struct Plan {
     type_idx: usize, // N_TYPES = JitterRng on a private scripted timer
+    /// 0 from_seed, 1 seed_from_u64, 2 from_rng, 3 try_from_rng
+    ctor: u8,
     seed: Vec<u8>,
+    x: u64,
+    src: Vec<u8>,
     ops: Vec<Op>,
     script: Vec<u64>,
     tail: u64,
+    /// None = leave the documented default of new_with_timer (64 rounds)
+    rounds: Option<u8>,
 }
 
 fn build(plan: &Plan) -> Slot {
     if plan.type_idx == N_TYPES {
         let t = ScriptedTimer::new(plan.script.clone(), plan.tail);
         let mut g = rand_jitter::JitterRng::new_with_timer(Box::new(t.closure()) as JitClosure);
-        g.set_rounds(2);
+        if let Some(r) = plan.rounds {
+            g.set_rounds(r);
+        }
         Slot(Box::new(Jit(g)))
     } else {
-        with_spec!(plan.type_idx, S => Slot(Box::new(Seeded::<S>(S::from_seed(&plan.seed)))))
+        with_spec!(plan.type_idx, S => build_seeded::<S>(plan))
     }
+}
+
+fn build_seeded<S: Spec>(plan: &Plan) -> Slot {
+    use rand_core::SeedableRng;
+    let g: S::R = match plan.ctor {
+        0 => S::from_seed(&plan.seed),
+        1 => S::R::seed_from_u64(plan.x),
+        2 => {
+            let mut s = SourceRng::new(plan.src.clone());
+            S::R::from_rng(&mut s)
+        }
+        _ => {
+            let mut s = FallibleSource(SourceRng::new(plan.src.clone()));
+            S::R::try_from_rng(&mut s).expect("infallible source")
+        }
+    };
+    Slot(Box::new(Seeded::<S>(g)))
+}
+
+/// what the documented procedure says a scripted-timer JitterRng returns
+/// (only for plans without aux ops); independent of any process-wide state
+fn jitter_model_log(plan: &Plan) -> Option<Vec<u64>> {
+    if plan.type_idx != N_TYPES || plan.ops.iter().any(|o| matches!(o, Op::Aux(_))) {
+        return None;
+    }
+    use crate::models::jitter::{CollectStats, Jitter};
+    let t = ScriptedTimer::new(plan.script.clone(), plan.tail);
+    let mut cur = t.model_cursor();
+    let mut m = Jitter::new();
+    if let Some(r) = plan.rounds {
+        m.rounds = r;
+    }
+    let mut st = CollectStats::default();
+    Some(plan.ops.iter().map(|op| {
+        let out = match op {
+            Op::U32 => super::c05::Out::U32(m.next_u32(&mut cur, &mut st)),
+            Op::U64 => super::c05::Out::U64(m.next_u64(&mut cur, &mut st)),
+            Op::Fill(n) => super::c05::Out::Bytes(m.fill_bytes(*n, &mut cur, &mut st)),
+            _ => unreachable!(),
+        };
+        let mut h = Fnv::new();
+        h.str(&out.show());
+        if let super::c05::Out::Bytes(b) = &out {
+            h.bytes(b);
+        }
+        h.get()
+    }).collect())
 }
 
 fn gen_plan(p: &mut Prng, same_as: Option<&Plan>) -> Plan {
@@ -135,12 +203,16 @@ fn gen_plan(p: &mut Prng, same_as: Option<&Plan>) -> Plan {
         if p.chance(1, 3) {
             let mut q = o.clone();
             if p.chance(1, 2) {
-                q.ops = gen_ops(p, q.type_idx);
+                q.ops = gen_ops(p, q.type_idx, q.rounds.is_none());
+            }
+            if q.ops.iter().any(|o| matches!(o, Op::Aux(0))) && q.script.len() < 1700 {
+                q.script = gen_script(p, 0, 1700);
             }
             return q;
         }
     }
-    let ti = p.below(N_TYPES as u64 + 1) as usize;
+    // JitterRng and the ISAAC generators (largest constructors) are over-represented
+    let ti = match p.below(10) { 0 | 1 => N_TYPES, 2 => IDX_ISAAC, 3 => IDX_ISAAC64, _ => p.below(N_TYPES as u64 + 1) as usize };
     let seed = if ti < N_TYPES {
         with_spec!(ti, S => {
             if p.chance(1, 12) { vec![0u8; S::SEED_LEN] } else { gen_seed(p, S::SEED_LEN, (S::FAMILY.native_bits() / 8) as usize, true).1 }
@@ -148,13 +220,31 @@ fn gen_plan(p: &mut Prng, same_as: Option<&Plan>) -> Plan {
     } else {
         vec![]
     };
-    Plan { type_idx: ti, seed, ops: gen_ops(p, ti), script: gen_script(p, 0, 64), tail: p.u64() }
+    let rounds = match p.below(4) { 0 => None, 1 => Some(1), _ => Some(2) };
+    let ops = gen_ops(p, ti, rounds.is_none());
+    let with_tt = ops.iter().any(|o| matches!(o, Op::Aux(0)));
+    // a test_timer-passing script: jittery, long enough for the 1601 probe readings
+    let script = gen_script(p, 0, if with_tt { 1700 } else { 64 });
+    let zeros = p.below(3) as usize * 16;
+    let mut src = vec![0u8; zeros];
+    src.extend(p.bytes(2100));
+    Plan { type_idx: ti, ctor: p.below(4) as u8, seed, x: p.u64(), src, ops, script, tail: p.u64(), rounds }
 }
 
-fn gen_ops(p: &mut Prng, ti: usize) -> Vec<Op> {
+fn gen_ops(p: &mut Prng, ti: usize, default_rounds: bool) -> Vec<Op> {
     let n = p.range(6, 40) as usize;
     if ti == N_TYPES {
-        (0..n.min(12)).map(|_| match p.below(3) { 0 => Op::U32, 1 => Op::U64, _ => Op::Fill(p.below(18) as usize) }).collect()
+        let n = if default_rounds { n.min(4) } else { n.min(12) };
+        let mut v: Vec<Op> = (0..n).map(|_| match p.below(3) { 0 => Op::U32, 1 => Op::U64, _ => Op::Fill(p.below(if default_rounds { 9 } else { 18 }) as usize) }).collect();
+        // sometimes the documented start-up idiom set_rounds(test_timer()?) and timer_stats
+        if !default_rounds && p.chance(1, 3) {
+            v.insert(0, Op::Aux(0));
+        }
+        if !default_rounds && p.chance(1, 4) {
+            let at = p.below(v.len() as u64 + 1) as usize;
+            v.insert(at, Op::Aux(1 + p.below(2) as u8));
+        }
+        v
     } else {
         with_spec!(ti, S => gen_history::<S>(p, n))
     }
@@ -202,6 +292,21 @@ fn case(sub: &str, id: u64, threads: usize, r: &mut Report) {
     if plans.iter().map(solo).collect::<Vec<_>>() != solo_logs {
         r.violation("solo_replay_not_reproducible".into(), sub, id, json!({"types": plans.iter().map(|p| type_name(p.type_idx)).collect::<Vec<_>>()}));
         return;
+    }
+    // scripted-timer JitterRng: the solo log must also be what the documented
+    // procedure yields (independent of anything cached process-wide)
+    for (g, pl) in plans.iter().enumerate() {
+        if let Some(want) = jitter_model_log(pl) {
+            r.eval();
+            if want != solo_logs[g] {
+                let k = want.iter().zip(solo_logs[g].iter()).position(|(a, b)| a != b).unwrap_or(0);
+                r.violation("JitterRng:stream_depends_on_process_wide_state".into(), sub, id, json!({
+                    "generator": g, "rounds_set": format!("{:?}", pl.rounds), "ops": show_ops(&pl.ops), "first_differing_op": k,
+                    "note": "a scripted-timer JitterRng run alone does not return what the documented procedure yields on its readings with the documented default / configured rounds"}));
+                return;
+            }
+            r.cov("jitter_solo_vs_model");
+        }
     }
     let table = send_sync_table();
     let sendable = |ti: usize| -> bool {
@@ -258,7 +363,8 @@ fn case(sub: &str, id: u64, threads: usize, r: &mut Report) {
                 turns.push((t, g, c));
                 sched.u64((t * 1000 + g * 10 + c) as u64);
             }
-            let slots: Vec<Mutex<Option<Slot>>> = plans.iter().map(|pl| Mutex::new(Some(build(pl)))).collect();
+            // generators are constructed inside the thread that takes their first turn
+            let slots: Vec<Mutex<Option<Slot>>> = plans.iter().map(|_| Mutex::new(None)).collect();
             let logs: Vec<Mutex<Vec<u64>>> = (0..g_count).map(|_| Mutex::new(Vec::new())).collect();
             let token = AtomicUsize::new(0);
             let migrations = AtomicUsize::new(0);
@@ -273,6 +379,9 @@ fn case(sub: &str, id: u64, threads: usize, r: &mut Report) {
                             {
                                 let mut slot = slots[g].lock().unwrap();
                                 let mut log = logs[g].lock().unwrap();
+                                if slot.is_none() {
+                                    *slot = Some(build(&plans[g]));
+                                }
                                 let gen = slot.as_mut().unwrap();
                                 for _ in 0..c {
                                     let i = log.len();
@@ -298,7 +407,7 @@ fn case(sub: &str, id: u64, threads: usize, r: &mut Report) {
         // read-only use and concurrent JitterRng::new() (touches JITTER_ROUNDS)
         "stress" => {
             let n_threads = threads.max(2);
-            let slots: Vec<Mutex<(Option<Slot>, Vec<u64>)>> = plans.iter().map(|pl| Mutex::new((Some(build(pl)), Vec::new()))).collect();
+            let slots: Vec<Mutex<(Option<Slot>, Vec<u64>)>> = plans.iter().map(|_| Mutex::new((None, Vec::new()))).collect();
             let shared: Vec<Slot> = plans.iter().map(build).collect();
             let shared_expect: Vec<u64> = shared.iter().map(|s| s.0.shared_probe()).collect();
             let done = AtomicUsize::new(0);
@@ -328,6 +437,9 @@ fn case(sub: &str, id: u64, threads: usize, r: &mut Report) {
                             if let Ok(mut guard) = slots[g].try_lock() {
                                 let (slot, log) = &mut *guard;
                                 let n = plans[g].ops.len();
+                                if slot.is_none() {
+                                    *slot = Some(build(&plans[g]));
+                                }
                                 if log.len() < n {
                                     let burst = q.range(1, 4) as usize;
                                     for _ in 0..burst {
@@ -363,6 +475,65 @@ fn case(sub: &str, id: u64, threads: usize, r: &mut Report) {
                 r.covn("migrations", migrations.load(Ordering::Relaxed) as u64);
             }
         }
+        // many constructions of ONE type racing on all threads (released by a
+        // barrier), every constructor route; each result must equal the
+        // generator built alone from the same input
+        "construct_race" => {
+            if !plans.iter().all(|pl| sendable(pl.type_idx)) {
+                return;
+            }
+            let ti = plans[0].type_idx;
+            let n_threads = threads.max(2);
+            let per = 16usize;
+            let probe_ops = vec![Op::U64, Op::U32, Op::Fill(9), Op::U64];
+            let mut all: Vec<Vec<Plan>> = Vec::new();
+            for _ in 0..n_threads {
+                let mut v = Vec::new();
+                for _ in 0..per {
+                    let mut pl = gen_plan(&mut p, None);
+                    while pl.type_idx != ti {
+                        pl = gen_plan(&mut p, None);
+                    }
+                    pl.ops = probe_ops.clone();
+                    if ti != N_TYPES && p.chance(3, 4) {
+                        pl.ctor = 2 + p.below(2) as u8; // from_rng / try_from_rng
+                    }
+                    if ti == N_TYPES { pl.rounds = Some(1); }
+                    v.push(pl);
+                }
+                all.push(v);
+            }
+            let expected: Vec<Vec<Vec<u64>>> = all.iter().map(|v| v.iter().map(solo).collect()).collect();
+            let barrier = std::sync::Barrier::new(n_threads);
+            let bad = Mutex::new(Vec::new());
+            std::thread::scope(|s| {
+                for t in 0..n_threads {
+                    let (all, expected, barrier, bad) = (&all, &expected, &barrier, &bad);
+                    s.spawn(move || {
+                        barrier.wait();
+                        for (k, pl) in all[t].iter().enumerate() {
+                            let got = solo(pl);
+                            if got != expected[t][k] {
+                                bad.lock().unwrap().push((t, k));
+                            }
+                        }
+                    });
+                }
+            });
+            let bad = bad.into_inner().unwrap();
+            r.evals((n_threads * per) as u64);
+            if let Some(&(t, k)) = bad.first() {
+                let pl = &all[t][k];
+                let ctor_name = ["from_seed", "seed_from_u64", "from_rng", "try_from_rng"][pl.ctor as usize % 4];
+                r.violation(format!("{}:construction_depends_on_concurrent_constructions", type_name(ti)), sub, id, json!({
+                    "type": type_name(ti), "constructor": ctor_name,
+                    "threads": n_threads, "wrong_generators": bad.len(), "of": n_threads * per}));
+                return;
+            }
+            r.cov("construction_races");
+            r.cov(&format!("construct_race:{}", type_name(ti)));
+            r.distinct(hkey(&[&"construct_race", &id]));
+        }
         _ => r.inconclusive(format!("unknown sub-monitor {} for C19", sub)),
     }
     for pl in &plans {
@@ -397,12 +568,17 @@ pub fn run(ctx: &Ctx, only: Option<&Only>) -> Report {
     let one = Ctx { threads: 2, ..ctx.clone() };
     let th = ctx.threads;
     total.merge(super::drive(&one, "turns", 600, secs * 0.3, |id, r| case("turns", id, th, r)));
-    total.merge(super::drive(&one, "stress", 300, secs * 0.4, |id, r| case("stress", id, th, r)));
+    total.merge(super::drive(&one, "stress", 300, secs * 0.3, |id, r| case("stress", id, th, r)));
+    total.merge(super::drive(&one, "construct_race", 240, secs * 0.1, |id, r| case("construct_race", id, th, r)));
     if ctx.scale >= 1.0 {
         total.floor("interleavings_one_thread", 1000);
         total.floor("interleavings_scripted_threads", 100);
         total.floor("interleavings_free_running", 50);
         total.floor("migrations", 1000);
+        total.floor("construction_races", 50);
+        total.floor("construct_race:IsaacRng", 3);
+        total.floor("construct_race:Isaac64Rng", 3);
+        total.floor("jitter_solo_vs_model", 100);
         for n in TYPE_NAMES.iter().chain(["JitterRng"].iter()) {
             total.floor(&format!("type:{}", n), 20);
         }
